@@ -19,7 +19,10 @@ RULE = ('clouds of N in 1..300 points, 1..6 coordinate dims + 0..3 feature chann
         'every recorded finding witness), then random; tolerance 2^-51 relative for results of one division, equality otherwise; '
         'then, by the exact oracle alone: size regimes (N at / next to powers of two up to 300, half above 256, thresholds nbr / radius exactly attained), '
         'call forms (float32 / float64 / integer tensors, column-major / strided / offset views, integer pixel grids and depth images) and the '
-        'non-mutation of every tensor argument')
+        'non-mutation of every tensor argument; autograd states (arguments that require grad / pp.Parameter extrinsics, one or several at once, under '
+        'grad / no_grad / inference_mode: same oracles, reprojerr zero exactly on produced pixels mixed with displaced ones, sum / norm = 1- / 2-norm '
+        'of the residual); valid but falsy argument values (radius 0 / 0.0 on clouds with and without coincident points, k / nbr / num 0, int radii, '
+        'defaults given explicitly or left out)')
 
 ORDS = {'L1': 1, 'L2': 2, 'Linf': float('inf')}
 # keys of the three defects found by this check and since repaired in /repo (known_findings.txt: `fixed:` lines,
@@ -174,12 +177,43 @@ def rows_close(A, B, tol=TOL):
 
 
 # ------------------------------------------------------------------------------------ calling the implementation
+# autograd state of a case (key 'grad' of the case): {'req': roles of the tensor arguments that require grad - 'a' (cloud / points /
+# first argument), 'b' (pixels / depth), 'K' (intrinsics), 'T' (extrinsics built from a tensor that requires grad) or 'Tparam'
+# (extrinsics wrapped in pp.Parameter, a pose being optimised) -, 'mode': None (grad enabled) | 'no_grad' | 'inference'}.
+# The property speaks about VALUES: they are the same whether or not the arguments take part in autograd and whatever the grad
+# mode of the caller, so every oracle below applies unchanged in every state.  The tensors are built outside the mode (parameters
+# of a model), the implementation is called inside it.
+GRAD = {'req': (), 'mode': None}
+GRAD_REQS = [['a'], ['K'], ['T'], ['Tparam'], ['b'], ['a', 'Tparam'], ['a', 'b', 'K', 'Tparam'], []]
+GRAD_MODES = [None, 'no_grad', 'inference']
+
+
+def set_grad(g):
+    g = g or {}
+    GRAD['req'], GRAD['mode'] = tuple(g.get('req') or ()), g.get('mode')
+
+
+def needs(role):
+    return role in GRAD['req']
+
+
 def call(fn):
-    """-> (result, None) or (None, 'ExcType: msg')"""
+    """-> (result, None) or (None, 'ExcType: msg'); the call runs in the grad mode of the current case"""
     try:
-        return fn(), None
+        if GRAD['mode'] is None:
+            return fn(), None
+        import torch
+        with (torch.no_grad() if GRAD['mode'] == 'no_grad' else torch.inference_mode()):
+            return fn(), None
     except Exception as e:     # noqa
         return None, '%s: %s' % (type(e).__name__, str(e)[:160])
+
+
+def must(fn):
+    r, err = call(fn)
+    if err is not None:
+        raise RuntimeError(err)
+    return r
 
 
 # call forms: every tensor handed to the implementation is built by `mk` in the dtype / memory layout named by the case
@@ -195,8 +229,9 @@ def eps(c):
     return EPS.get(d, TOL)
 
 
-def mk(torch, data, dtype='float64', layout=None):
-    """layout: None contiguous | 'T' column-major storage | 'strided' every other row and an inner block of columns of a larger
+def mk(torch, data, dtype='float64', layout=None, role=None):
+    """role: name of the argument in the autograd state of the case (the tensor requires grad when the state lists it);
+    layout: None contiguous | 'T' column-major storage | 'strided' every other row and an inner block of columns of a larger
     buffer filled with other numbers | 'offset' a contiguous slice at a storage offset"""
     dt = getattr(torch, dtype)
     t = torch.tensor(data, dtype=dt)
@@ -219,7 +254,15 @@ def mk(torch, data, dtype='float64', layout=None):
             base[5:] = t.reshape(-1)
             t = base[5:].reshape(t.shape)
     LIVE.append((base, base.clone()))
+    if role is not None and needs(role) and t.dtype.is_floating_point:
+        t = t.detach().requires_grad_()          # a leaf sharing the storage (and the strides) of the view
     return t
+
+
+def extr(pp, t):
+    """extrinsics from a (7,) tensor: an SE3 LieTensor, or a pp.Parameter when the autograd state asks for it"""
+    T = pp.SE3(t)
+    return pp.Parameter(T) if needs('Tparam') else T
 
 
 def mutated(torch):
@@ -234,12 +277,15 @@ def tens(torch, rows, D=None, c=None):
     dtype = c.get('dtype', 'float64')
     if not rows:
         return torch.zeros((0, D or 1), dtype=getattr(torch, dtype))
-    return mk(torch, rows, dtype, c.get('layout'))
+    return mk(torch, rows, dtype, c.get('layout'), role='a')
 
 
 def impl_knn_filter(pp, torch, c):
     t = tens(torch, c['pts'], c=c)
-    r, err = call(lambda: pp.knn_filter(t, k=c['k'], pdim=c['pd'], radius=c['radius'], ord=ORDS[c['ord']]))
+    kw = dict(k=c['k'], pdim=c['pd'], radius=c['radius'], ord=ORDS[c['ord']])
+    for name in c.get('omit') or ():         # optional arguments left to their defaults (only where the default means the same)
+        del kw[name]
+    r, err = call(lambda: pp.knn_filter(t, **kw))
     return (rows_of(r) if err is None else None), err
 
 
@@ -307,24 +353,52 @@ def check_voxel_random(pp, torch, c):
 
 
 def check_reproj(pp, torch, c):
-    """reprojerr == 0 exactly for pixels produced by point2pixel (points project to dyadic pixels)"""
-    K = torch.tensor(c['K'], dtype=torch.float64)
-    pts = torch.tensor(c['pts'], dtype=torch.float64)
-    T = pp.SE3(torch.tensor(c['T'], dtype=torch.float64)) if c.get('T') else None
-    pix, err = call(lambda: pp.point2pixel(pts, K, T))
+    """reprojerr == 0 exactly for the pixels produced by point2pixel and only for them; c['offset'] is one displacement for all
+    points or one per point (exact and displaced pixels mixed in one call).  Besides: the 'none' residual is minus the
+    displacement, 'sum' / 'norm' are its 1- / 2-norm (exact Fractions; the only rounding is that of pixel + displacement, of the
+    subtraction and of the reduction).  In the autograd state c['grad'] (values do not depend on it)."""
+    n = len(c['pts'])
+    tK = mk(torch, c['K'], role='K')
+    tp = mk(torch, c['pts'], role='a')
+    T = extr(pp, mk(torch, c['T'], role='T')) if c.get('T') else None
+    pix, err = call(lambda: pp.point2pixel(tp, tK, T))
     if err:
         return 'point2pixel raises ' + err
-    off = torch.tensor(c['offset'], dtype=torch.float64)
-    e, err = call(lambda: pp.reprojerr(pts, pix + off, K, T, reduction=c['reduction']))
+    pix = pix.detach().tolist()
+    if tuple(len(r) for r in pix) != (2,) * n:
+        return 'point2pixel returns %d rows for %d points' % (len(pix), n)
+    if not all(math.isfinite(v) for r in pix for v in r):
+        return None                      # projection through a zero depth: outside the exact route
+    off = c['offset']
+    off = [list(o) for o in off] if off and isinstance(off[0], (list, tuple)) else [list(off)] * n
+    tb = mk(torch, [[p[0] + o[0], p[1] + o[1]] for p, o in zip(pix, off)], role='b')
+    red = c['reduction']
+    e, err = call(lambda: pp.reprojerr(tp, tb, tK, T, reduction=red))
     if err:
         return 'reprojerr raises ' + err
-    e = e.reshape(len(c['pts']), -1)
-    for i in range(len(c['pts'])):
-        match = all(float(v) == 0.0 for v in off[i].tolist()) if off.dim() == 2 else all(float(v) == 0.0 for v in off.tolist())
-        zero = all(float(v) == 0.0 for v in e[i].tolist())
+    if tuple(e.shape) != ((n, 2) if red == 'none' else (n,)):
+        return 'reprojerr(reduction=%r) returns shape %s for %d points' % (red, tuple(e.shape), n)
+    e = e.detach().reshape(n, -1).tolist()
+    for i in range(n):
+        match = all(float(v) == 0.0 for v in off[i])
+        zero = all(float(v) == 0.0 for v in e[i])
         if match != zero:
-            return 'point %d: pixel offset from the projection %s, reprojerr(%s) = %s' % (
-                i, (off[i] if off.dim() == 2 else off).tolist(), c['reduction'], e[i].tolist())
+            return 'point %d: pixel offset from the projection %s, reprojerr(%s) = %s' % (i, off[i], red, e[i])
+        if not all(math.isfinite(v) for v in e[i]):
+            return 'point %d: reprojerr(%s) = %s' % (i, red, e[i])
+        o0, o1 = F(off[i][0]), F(off[i][1])
+        d = Fraction(1, 2 ** 50) * (1 + max(abs(F(v)) for v in pix[i]) + abs(o0) + abs(o1))      # rounding of p + o and of p - (p + o)
+        if red == 'none':
+            ok = abs(F(e[i][0]) + o0) <= d and abs(F(e[i][1]) + o1) <= d
+        elif red == 'sum':
+            ok = abs(F(e[i][0]) - abs(o0) - abs(o1)) <= 2 * d
+        else:
+            g, n2 = F(e[i][0]), o0 * o0 + o1 * o1
+            d = 2 * d + Fraction(1, 2 ** 49) * g
+            ok = g >= 0 and max(g - d, 0) ** 2 <= n2 <= (g + d) ** 2
+        if not ok:
+            return 'point %d: pixel offset from the projection %s, reprojerr(%s) = %s is not the %s of the residual' % (
+                i, off[i], red, e[i], {'none': 'negative offset', 'sum': '1-norm', 'norm': '2-norm'}[red])
     return None
 
 
@@ -470,7 +544,12 @@ def add_knnf(col, pp, torch, pts, k, pd, o, radius, batch=1):
     full = o_knn_filter(pts, k, pd, o, None)
     if full is not None and full[1]:
         # a tie at the selection boundary of some row: torch's choice is unspecified, nothing to compare
+        # (the model sorts every row); the property-level oracle looks at the retained rows only and still applies
         col.ctx.count('knn_filter:tie-skipped')
+        if radius is not None:
+            why = check_knn_filter(pp, torch, c)
+            if why:
+                col.ctx.violation(cls, 'knn_filter(k=%d, radius=%r, ord=%s, pdim=%d) on %d points: %s' % (k, radius, o, pd, N, why), c)
         return out
     col.add('knnf', c, '(%s, %s, %s, %s, %s, %s)' % (o, nlit(pd), qrows(pts), nlit(k), opt(qlit(radius)) if radius is not None else 'None',
                                                  opt(qrows(out)) if out is not None else 'None'),
@@ -479,7 +558,7 @@ def add_knnf(col, pp, torch, pts, k, pd, o, radius, batch=1):
     # besides the model comparison the property itself is checked on the implementation (exact oracle)
     why = check_knn_filter(pp, torch, c)
     if why:
-        col.ctx.violation(cls, 'knn_filter(k=%d, radius=%s, ord=%s, pdim=%d) on %d points: %s' % (k, radius, o, pd, N, why), c)
+        col.ctx.violation(cls, 'knn_filter(k=%d, radius=%r, ord=%s, pdim=%d) on %d points: %s' % (k, radius, o, pd, N, why), c)
     return out
 
 
@@ -704,6 +783,12 @@ def directed(ctx, col, pp, torch):
     add_knnf(col, pp, torch, DOC, 0, 3, 'L2', 0.5)
     add_knnf(col, pp, torch, [[3.0, 1.0]], 0, 1, 'L1', None)
     add_knnf(col, pp, torch, [[0.0, 7.0], [1.0, 5.0], [3.0, 3.0], [7.0, 1.0]], 1, 1, 'L1', None)   # feature channel averaged
+    # radius 0 / 0.0 is a radius (only coincident points are within it), not "no radius"
+    add_knnf(col, pp, torch, [[0.0], [1.0], [3.0], [7.0]], 1, 1, 'L1', 0.0)                          # everything removed, no tie anywhere
+    add_knnf(col, pp, torch, [[0.0], [1.0], [3.0], [7.0]], 1, 1, 'Linf', 0)
+    add_knnf(col, pp, torch, [[0.0, 1.0], [10.0, 2.0], [0.0, 1.0], [10.0, 2.0]], 1, 1, 'L2', 0.0)    # two coincident pairs: everything kept
+    add_knnf(col, pp, torch, [[3.0, 2.0], [0.0, 1.0], [8.0, 5.0], [0.0, 1.0]], 1, 1, 'L2', 0.0)      # the two coincident rows are kept (oracle only: ties in the removed rows)
+    add_knnf(col, pp, torch, [[3.0, 2.0], [0.0, 1.0], [8.0, 5.0], [0.0, 1.0]], 0, 2, 'L1', 0)        # k = 0: everything kept
     # ---- voxel_filter
     V5 = [[1., 2.], [4., 5.], [7., 8.], [10., 11.], [13., 14.]]
     add_vox(col, pp, torch, V5, [5.0, 5.0]); add_vox(col, pp, torch, V5, [5.0]); add_vox(col, pp, torch, V5, [-5.0, 2.5])
@@ -716,6 +801,7 @@ def directed(ctx, col, pp, torch):
     add_nbr(col, pp, torch, DOC, 2, 5.0, 3, 'L2'); add_nbr(col, pp, torch, DOC, 2, 12.0, 3, 'L2'); add_nbr(col, pp, torch, DOC, 2, 10.0, 2, 'L2')
     add_nbr(col, pp, torch, [[0.0, 0.0], [3.0, 4.0], [6.0, 8.0]], 1, 5.0, 2, 'L2')                 # boundary: distance == radius
     add_nbr(col, pp, torch, [[0.0, 0.0], [3.0, 4.0], [6.0, 8.0]], 1, 7.0, 2, 'L1'); add_nbr(col, pp, torch, [[0.0, 0.0], [3.0, 4.0], [6.0, 8.0]], 2, 4.0, 2, 'Linf')
+    add_nbr(col, pp, torch, [[3.0, 2.0], [0.0, 1.0], [8.0, 5.0], [0.0, 1.0]], 1, 0.0, 2, 'L2'); add_nbr(col, pp, torch, [[3.0, 2.0], [0.0, 1.0], [8.0, 5.0], [0.0, 1.0]], 1, 0, 1, 'L1')
     add_nbr(col, pp, torch, DOC, 0, 1.0, 3, 'L1', usepd=False); add_nbr(col, pp, torch, DOC, -1, -1.0, 3, 'L2'); add_nbr(col, pp, torch, [[1.0]], 0, 1.0, 1, 'L1')
     # ---- knn
     REF = [[9., 2., 2.], [1., 0., 2.], [0., 1., 1.], [5., 0., 1.], [1., 0., 1.], [5., 5., 3.]]
@@ -734,7 +820,8 @@ def directed(ctx, col, pp, torch):
 def check_knn(pp, torch, c):
     o, k = c['ord'], c['k']
     R, Nb = frows(c['ref']), frows(c['nbr'])
-    r, err = call(lambda: pp.knn(tens(torch, c['ref'], c=c), tens(torch, c['nbr'], c=c), k=k, ord=ORDS[o]))
+    tr, tn = tens(torch, c['ref'], c=c), tens(torch, c['nbr'], c=c)
+    r, err = call(lambda: pp.knn(tr, tn, k=k, ord=ORDS[o]))
     if k > len(Nb):
         return None if err else 'k > number of neighbours but no error'
     if err:
@@ -756,9 +843,18 @@ def check_knn(pp, torch, c):
 
 
 def check_nbr(pp, torch, c):
-    r, err = call(lambda: pp.nbr_filter(tens(torch, c['pts'], c=c), nbr=c['nbr'], radius=c['radius'], pdim=c['pd'], ord=ORDS[c['ord']], return_mask=True))
+    t = tens(torch, c['pts'], c=c)
+    kw = dict(nbr=c['nbr'], radius=c['radius'], pdim=c['pd'], ord=ORDS[c['ord']], return_mask=True)
+    for name in c.get('omit') or ():         # optional arguments left to their defaults (only where the default means the same)
+        del kw[name]
+    r, err = call(lambda: pp.nbr_filter(t, **kw))
     if err:
         return 'raises ' + err
+    if 'return_mask' in (c.get('omit') or ()):
+        if F(c['radius']) < 0:
+            return None
+        want = [p for p, m in zip(c['pts'], o_nbr_mask(c['pts'], c['nbr'], c['radius'], c['pd'], c['ord'])) if m]
+        return None if torch.is_tensor(r) and rows_of(r) == want else 'returned rows are not the kept points in order (%d rows, expected %d)' % (len(r), len(want))
     if F(c['radius']) < 0:
         return None                      # the property speaks about radii >= 0
     want = o_nbr_mask(c['pts'], c['nbr'], c['radius'], c['pd'], c['ord'])
@@ -772,7 +868,9 @@ def check_nbr(pp, torch, c):
 
 
 def check_voxel(pp, torch, c):
-    r, err = call(lambda: pp.voxel_filter(tens(torch, c['pts'], c=c), list(c['voxel'])))
+    t = tens(torch, c['pts'], c=c)
+    kw = dict(random=False) if c.get('explicit') else {}          # the default given explicitly
+    r, err = call(lambda: pp.voxel_filter(t, list(c['voxel']), **kw))
     if any(v == 0 for v in c['voxel']):
         return None if err else 'zero voxel size accepted'
     if err:
@@ -787,7 +885,8 @@ def check_voxel(pp, torch, c):
 
 def check_random(pp, torch, c):
     torch.manual_seed(c.get('seed', 0))
-    r, err = call(lambda: pp.random_filter(tens(torch, c['pts'], c=c), c['num']))
+    t = tens(torch, c['pts'], c=c)
+    r, err = call(lambda: pp.random_filter(t, c['num']))
     if c['num'] > len(c['pts']):
         return None if err else 'num > N accepted'
     if err:
@@ -841,9 +940,9 @@ def check_cam(pp, torch, c):
     tol, atol = (Fraction(1, 2 ** 30), Fraction(1, 2 ** 20)) if gen else (Fraction(1, 2 ** 50), Fraction(1, 2 ** 40))
     if f32:
         tol, atol = Fraction(1, 2 ** 18), Fraction(1, 2 ** 18)
-    ta = mk(torch, a, da, lay)
-    tK = mk(torch, K, dK) if K else None
-    tT = pp.SE3(mk(torch, T, dK)) if T else None
+    ta = mk(torch, a, da, lay, role='a')
+    tK = mk(torch, K, dK, role='K') if K else None
+    tT = extr(pp, mk(torch, T, dK, role='T')) if T else None
     near = lambda x, y, s=1: abs(F(x) - y) <= tol * abs(y) + atol * s
     if fn == 'cart2homo':
         r, err = call(lambda: pp.cart2homo(ta))
@@ -852,7 +951,7 @@ def check_cam(pp, torch, c):
         return None if rows_of(r) == [[float(x) for x in r_] + [1.0] for r_ in a] else 'cart2homo(%s) = %s: does not append a one' % (a, rows_of(r))
     if fn == 'homo2cart':
         tiny = TINY[da]
-        got = rows_of(pp.homo2cart(ta))
+        got = rows_of(must(lambda: pp.homo2cart(ta)))
         for r, g in zip(a, got):
             w = F(r[-1])
             den = (1 if w >= 0 else -1) * max(abs(w), tiny)
@@ -860,7 +959,7 @@ def check_cam(pp, torch, c):
                 return 'homo2cart(%s) = %s' % (r, g)
         return None
     if fn == 'pixel2point':
-        tb = mk(torch, [z[0] for z in b], db, lay)
+        tb = mk(torch, [z[0] for z in b], db, lay, role='b')
         r, err = call(lambda: pp.pixel2point(ta, tb, tK))
         if K[0][0] == 0 or K[1][1] == 0:
             return None if err else 'zero focal length accepted'
@@ -896,11 +995,11 @@ def check_cam(pp, torch, c):
                 return 'point2pixel(%s) = %s, pinhole projection is %s' % (p, g, [float(x) for x in wv])
         return None
     red = fn.split('-')[1]
-    tb = mk(torch, b, db, lay)
+    tb = mk(torch, b, db, lay, role='b')
     r, err = call(lambda: pp.reprojerr(ta, tb, tK, tT, reduction=red))
     if err:
         return 'raises ' + err
-    got = r.reshape(len(a), -1).tolist()
+    got = r.detach().reshape(len(a), -1).tolist()
     for p, px, g, wv, s in zip(a, b, got, proj, scl):
         if max(abs(y) for y in wv) > 10 ** 30:
             continue
@@ -925,22 +1024,22 @@ def check_perm(pp, torch, c):
     fn, pts, idx = c['of'], c['pts'], c['perm']
     P2 = [pts[i] for i in idx]
     if fn == 'nbr_filter':
-        f = lambda p: rows_of(pp.nbr_filter(tens(torch, p, c=c), nbr=c['nbr'], radius=c['radius'], pdim=c['pd'], ord=ORDS[c['ord']]))
+        f = lambda p: rows_of(must(lambda t=tens(torch, p, c=c): pp.nbr_filter(t, nbr=c['nbr'], radius=c['radius'], pdim=c['pd'], ord=ORDS[c['ord']])))
         a, b = f(pts), f(P2)
         return None if sorted_rows(a) == sorted_rows(b) else 'kept points differ as multisets after permuting the cloud'
     if fn == 'voxel_filter':
-        f = lambda p: rows_of(pp.voxel_filter(tens(torch, p, c=c), list(c['voxel'])))
+        f = lambda p: rows_of(must(lambda t=tens(torch, p, c=c): pp.voxel_filter(t, list(c['voxel']))))
         a, b = f(pts), f(P2)
         return None if rows_close(a, b, 2 * eps(c)) else 'voxel centroids change when the cloud is permuted'
     if fn == 'knn_filter':
         full = o_knn_filter(pts, c['k'], c['pd'], c['ord'], None)
         if full is None or full[1]:
             return None                  # k+1 > N, or a tie at the selection boundary of some row: the choice is unspecified
-        f = lambda p: rows_of(pp.knn_filter(tens(torch, p, c=c), k=c['k'], pdim=c['pd'], ord=ORDS[c['ord']]))
+        f = lambda p: rows_of(must(lambda t=tens(torch, p, c=c): pp.knn_filter(t, k=c['k'], pdim=c['pd'], ord=ORDS[c['ord']])))
         a, b = f(pts), f(P2)
         return None if rows_close(b, [a[i] for i in idx], 2 * eps(c)) else 'outputs are not permuted with the cloud'
     if fn == 'knn':
-        f = lambda p: pp.knn(tens(torch, c['ref'], c=c), tens(torch, p, c=c), k=c['k'], ord=ORDS[c['ord']])
+        f = lambda p: must(lambda tr=tens(torch, c['ref'], c=c), tn=tens(torch, p, c=c): pp.knn(tr, tn, k=c['k'], ord=ORDS[c['ord']]))
         a, b = f(pts), f(P2)
         if not torch.equal(a.values, b.values):
             return 'knn distances change when the neighbour cloud is permuted'
@@ -960,24 +1059,35 @@ def check_cam_batch(pp, torch, c):
         B *= v
     Kb, Tb, Pb = K.reshape(bs + (3, 3)), pp.SE3(T.tensor().reshape(bs + (7,))), P.reshape(bs + P.shape[-2:])
     use_T = c['use_T']
+    if needs('a'):
+        Pb = Pb.detach().clone().requires_grad_()
+    if needs('K'):
+        Kb = Kb.detach().clone().requires_grad_()
+    if needs('T'):
+        Tb = pp.SE3(Tb.tensor().detach().clone().requires_grad_())
+    if needs('Tparam'):
+        Tb = pp.Parameter(Tb)
 
     def items(t):
         return t.reshape((B,) + tuple(t.shape[len(bs):]))
     try:
-        pix = pp.point2pixel(Pb, Kb, Tb if use_T else None)
+        pix = must(lambda: pp.point2pixel(Pb, Kb, Tb if use_T else None))
     except Exception as e:
         return 'point2pixel with batched intrinsics of shape %s raised %r' % (tuple(Kb.shape), e)
     if tuple(pix.shape) != bs + (P.shape[-2], 2):
         return 'point2pixel returned shape %s for points %s and intrinsics %s' % (tuple(pix.shape), tuple(Pb.shape), tuple(Kb.shape))
     for b in range(B):
-        one = pp.point2pixel(items(Pb)[b], items(Kb)[b], pp.SE3(items(Tb.tensor())[b]) if use_T else None)
+        one = must(lambda: pp.point2pixel(items(Pb)[b], items(Kb)[b], pp.SE3(items(Tb.tensor())[b]) if use_T else None))
         if not torch.allclose(items(pix)[b], one, rtol=1e-12, atol=1e-12):
             return 'point2pixel: batch item %d is %s, the same camera alone gives %s' % (b, items(pix)[b].tolist(), one.tolist())
     # camera-frame points and depths for the inverse
-    Pc = Tb.unsqueeze(-2).Act(Pb) if use_T else Pb
-    depth = Pc[..., 2]
+    Pc = (pp.SE3(Tb.tensor().detach()).unsqueeze(-2).Act(Pb.detach()) if use_T else Pb).detach()
+    depth = Pc[..., 2].clone()
+    pix = pix.detach().clone()
+    if needs('b'):
+        depth.requires_grad_(), pix.requires_grad_()
     try:
-        back = pp.pixel2point(pix, depth, Kb)
+        back = must(lambda: pp.pixel2point(pix, depth, Kb))
     except Exception as e:
         return 'pixel2point with batched intrinsics of shape %s and pixels of shape %s raised %r' % (tuple(Kb.shape), tuple(pix.shape), e)
     if tuple(back.shape) != tuple(Pc.shape):
@@ -988,7 +1098,7 @@ def check_cam_batch(pp, torch, c):
         return 'pixel2point(point2pixel(P), depth) differs from P by %.3g for batched cameras (batch shape %s, %d points each)' % (err, bs, P.shape[-2])
     for red in ('none', 'sum', 'norm'):
         try:
-            e = pp.reprojerr(Pb, pix, Kb, Tb if use_T else None, reduction=red)
+            e = must(lambda: pp.reprojerr(Pb, pix, Kb, Tb if use_T else None, reduction=red))
         except Exception as ex:
             return 'reprojerr(reduction=%r) with batched cameras raised %r' % (red, ex)
         if not float(e.abs().max()) <= 1e-9 * (float(pix.abs().max()) + 1.0):
@@ -1038,10 +1148,13 @@ def judge(pp, torch, c):
     fn = c.get('fn')
     f = CHECKS.get(fn, check_cam)
     del LIVE[:]
+    set_grad(c.get('grad'))
     try:
         why = f(pp, torch, c)
     except Exception as e:      # noqa
         why = 'check raised %s: %s' % (type(e).__name__, str(e)[:200])
+    finally:
+        set_grad(None)
     if mutated(torch) and why is None:
         why = MUT
     return why
@@ -1057,7 +1170,9 @@ def form_of(c):
     d = c.get('dtypes') or c.get('dtype', 'float64')
     if isinstance(d, dict):
         d = '/'.join('%s=%s' % kv for kv in sorted(d.items()))
-    return '%s,%s' % (d, c.get('layout') or 'contiguous')
+    g = c.get('grad')
+    g = ',requires_grad=%s,mode=%s' % ('+'.join(g.get('req') or []) or 'none', g.get('mode') or 'grad') if g else ''
+    return '%s,%s%s' % (d, c.get('layout') or 'contiguous', g)
 
 
 def direct(ctx, pp, torch, c, branch, what=''):
@@ -1281,6 +1396,34 @@ def gen_small(rng, N, pd, nf, integer=False):
     return rows
 
 
+def cloud_case(rng, fn, pts, pd, nf, o, form):
+    """one case of the cloud function fn ('perm-*': its permutation equivariance) on the cloud pts, parameters at realised
+    distances / counts; form = extra keys of the case (dtype / layout / autograd state)"""
+    N = len(pts)
+    if fn in ('nbr_filter', 'perm-nbr'):
+        radius = pick_radius(rng, pts, pd, o)
+        cnt = o_counts(pts, radius, pd, o) if radius >= 0 else [0]
+        c = dict(fn='nbr_filter', pts=pts, nbr=rng.choice([cnt[rng.randrange(len(cnt))], 1, 2, 0]), radius=radius, pd=pd, ord=o)
+    elif fn in ('knn_filter', 'perm-knnf'):
+        k = pick_k(rng, pts, pd, o, None)
+        radius = None if (fn == 'perm-knnf' or rng.random() < 0.4) else radius_for_count(rng, pts, pd, o, rng.randrange(N), max(k, 1))
+        c = dict(fn='knn_filter', pts=pts, k=k, pd=pd, ord=o, radius=radius)
+    elif fn == 'knn':
+        D = pd + nf
+        ref = gen_small(rng, rng.choice([1, 2, 5]), D, 0)
+        c = dict(fn='knn', ref=ref, nbr=pts, k=rng.choice([0, 1, 2, N, N // 2]), ord=o)
+    elif fn in ('voxel_filter', 'voxel_filter_random', 'perm-vox'):
+        voxel = [rng.choice([1.0, 2.0, 5.0, 0.5, 1.5, 3.0, 7.0, 10.0, 64.0, 1000.0, -2.0]) for _ in range(rng.randint(1, pd))]
+        c = dict(fn='voxel_filter' if fn != 'voxel_filter_random' else fn, pts=pts, voxel=voxel, seed=rng.randrange(10 ** 6))
+    else:
+        c = dict(fn='random_filter', pts=pts, num=rng.choice([0, 1, N, N // 2, N + 1]), seed=rng.randrange(10 ** 6))
+    c.update(form)
+    if fn.startswith('perm-'):
+        P2, idx = permuted(rng, pts)
+        c = dict(c, of=c['fn'], fn='perm', perm=idx)
+    return c
+
+
 def call_forms(ctx, pp, torch, n):
     """every cloud function in single precision, on non-contiguous views (column-major, strided slices of a larger buffer, storage
     offset) and - where integer clouds are accepted (random sampling) - on integer tensors; exact oracle + non-mutation"""
@@ -1299,28 +1442,7 @@ def call_forms(ctx, pp, torch, n):
         o, pd, nf = rng.choice(os_), rng.randint(1, 5), rng.choice([0, 1, 2])
         N = rng.choice([1, 2, 3, 5, 8, 13, 24, 48])
         pts = gen_small(rng, N, pd, nf, integer)
-        form = dict(dtype=dtype, layout=layout)
-        if fn in ('nbr_filter', 'perm-nbr'):
-            radius = pick_radius(rng, pts, pd, o)
-            cnt = o_counts(pts, radius, pd, o) if radius >= 0 else [0]
-            c = dict(fn='nbr_filter', pts=pts, nbr=rng.choice([cnt[rng.randrange(len(cnt))], 1, 2, 0]), radius=radius, pd=pd, ord=o)
-        elif fn in ('knn_filter', 'perm-knnf'):
-            k = pick_k(rng, pts, pd, o, None)
-            radius = None if (fn == 'perm-knnf' or rng.random() < 0.4) else radius_for_count(rng, pts, pd, o, rng.randrange(N), max(k, 1))
-            c = dict(fn='knn_filter', pts=pts, k=k, pd=pd, ord=o, radius=radius)
-        elif fn == 'knn':
-            D = pd + nf
-            ref = gen_small(rng, rng.choice([1, 2, 5]), D, 0)
-            c = dict(fn='knn', ref=ref, nbr=pts, k=rng.choice([0, 1, 2, N, N // 2]), ord=o)
-        elif fn in ('voxel_filter', 'voxel_filter_random', 'perm-vox'):
-            voxel = [rng.choice([1.0, 2.0, 5.0, 0.5, 1.5, 3.0, 7.0, 10.0, 64.0, 1000.0, -2.0]) for _ in range(rng.randint(1, pd))]
-            c = dict(fn='voxel_filter' if fn != 'voxel_filter_random' else fn, pts=pts, voxel=voxel, seed=rng.randrange(10 ** 6))
-        else:
-            c = dict(fn='random_filter', pts=pts, num=rng.choice([0, 1, N, N // 2, N + 1]), seed=rng.randrange(10 ** 6))
-        c.update(form)
-        if fn.startswith('perm-'):
-            P2, idx = permuted(rng, pts)
-            c = dict(c, of=c['fn'], fn='perm', perm=idx)
+        c = cloud_case(rng, fn, pts, pd, nf, o, dict(dtype=dtype, layout=layout))
         direct(ctx, pp, torch, c, 'call-form:%s:%s' % (fn, 'integer' if integer else dtype))
 
 
@@ -1417,6 +1539,121 @@ def check_backproject(pp, torch, c):
     return None
 
 
+# ------------------------------------------------------------------------------------ autograd states
+def dyadic_camera(rng, need_T):
+    """(K, T, points): a dyadic camera of gen_camera and points whose exact projections are of moderate size"""
+    for _ in range(20):
+        K, T = gen_camera(rng)
+        if need_T and T is None:
+            q = list(rng.choice(HURWITZ)) if rng.random() < 0.6 else [dy(rng, -1, 1) for _ in range(4)]
+            T = [dy(rng, -4, 4) for _ in range(3)] + q
+        pts = [[dy(rng, -8, 8), dy(rng, -8, 8), rng.choice([1, 2, 4, 0.5, 3, 5, -2, 1.5, 7.25, -0.375])] for _ in range(rng.choice([2, 3, 5]))]
+        pr = [o_project(K, T, q) for q in pts]
+        if all(abs(v) < 10 ** 5 for q in pr for v in q):
+            return K, T, pts, pr
+    K = [[2.0, 0.0, 4.5], [0.0, 2.0, 4.5], [0.0, 0.0, 1.0]]
+    T = [0.0, -8.0, 0.0, 0.5, 0.5, 0.5, 0.5]
+    pts = [[2.0, 0.0, 2.0], [1.0, 0.0, 2.0], [0.0, 1.0, 1.0]]
+    return K, T, pts, [o_project(K, T, q) for q in pts]
+
+
+def autograd_states(ctx, pp, torch, n):
+    """every camera and cloud function with arguments that take part in autograd - points, pixels / depth, intrinsics that require
+    grad, extrinsics that require grad or are a pp.Parameter (the pose being optimised), one or several of them at once - and under
+    no_grad / inference_mode: the VALUES are those of the property's definitions in every state, so each case is judged by the same
+    exact oracle as in the plain state: reprojerr is exactly zero on the pixels produced by point2pixel and only there, with exact
+    and displaced pixels mixed in one call; 'none' is minus the displacement, 'sum' / 'norm' its 1- / 2-norm; point2pixel /
+    pixel2point / homo2cart / cart2homo against the pinhole model; batched cameras; every cloud function and its permutation
+    equivariance on a cloud that requires grad; non-mutation of the arguments"""
+    rng = ctx.rng
+    states = [dict(req=list(r), mode=m) for m in GRAD_MODES for r in GRAD_REQS if r or m]
+    cam_ops = ['reprojerr-norm', 'point2pixel', 'pixel2point', 'reprojerr-sum', 'homo2cart', 'reprojerr-none', 'cart2homo']
+    cloud = ['knn_filter', 'nbr_filter', 'knn', 'voxel_filter', 'voxel_filter_random', 'random_filter', 'perm-knnf', 'perm-nbr', 'perm-vox']
+    os_ = ['L1', 'L2', 'Linf']
+    for it in range(n):
+        g = states[it % len(states)]
+        mode = g['mode'] or 'grad'
+        K, T, pts, pr = dyadic_camera(rng, need_T=('T' in g['req'] or 'Tparam' in g['req']))
+        # ---- zero exactly on the produced pixels / norms of the residual: the first point always exact, the others exact or displaced
+        off = [[0.0, 0.0]] + [rng.choice([[0.0, 0.0], [dy(rng, -4, 4), dy(rng, -4, 4)], [0.0, dy(rng, 1, 4)], [3.0, -4.0]]) for _ in pts[1:]]
+        for red in ('none', 'sum', 'norm'):
+            c = dict(fn='reprojerr-zero', K=K, T=T, pts=pts, offset=off, reduction=red, grad=g)
+            direct(ctx, pp, torch, c, 'autograd:reprojerr-zero:%s:%s' % (red, mode))
+        # ---- one camera helper against the pinhole model
+        op = cam_ops[it % len(cam_ops)]
+        dK = 'float32' if it % 5 == 4 else 'float64'
+        lay = rng.choice(LAYOUTS)
+        N = len(pts)
+        if op == 'cart2homo':
+            c = dict(fn=op, K=None, T=None, pts=[[dy(rng, -8, 8) for _ in range(3)] for _ in range(N)], b=None, dtypes=dict(a=dK))
+        elif op == 'homo2cart':
+            d = rng.randint(2, 5)
+            c = dict(fn=op, K=None, T=None, pts=[[dy(rng, -8, 8) for _ in range(d - 1)] + [rng.choice([1, -1, 2, 3, -5, 0.75, 7])] for _ in range(N)], b=None, dtypes=dict(a=dK))
+        elif op == 'pixel2point':
+            f = lambda: rng.choice([1, 2, 4, 0.5, 3, 1.5, -2, 40, 100.25, 525.0])
+            Kp = [[f(), 0.0, dy(rng, -8, 40)], [0.0, f(), dy(rng, -8, 40)], [0.0, 0.0, 1.0]]
+            c = dict(fn=op, K=Kp, T=None, pts=[[dy(rng, -8, 40), dy(rng, -8, 40)] for _ in range(N)],
+                     b=[[rng.choice([1, 2, 0.5, 3, 5.5, -2, 0.75, 7.25])] for _ in range(N)], dtypes=dict(a=dK, b=dK, K=dK))
+        elif op == 'point2pixel':
+            c = dict(fn=op, K=K, T=T, pts=pts, b=None, dtypes=dict(a=dK, K=dK))
+        else:
+            pix = [[float(math.floor(q[0] * 8) / 8) + dy(rng, -4, 4), float(math.floor(q[1] * 8) / 8) + dy(rng, -4, 4)] for q in pr]
+            c = dict(fn=op, K=K, T=T, pts=pts, b=pix, dtypes=dict(a=dK, b=dK, K=dK))
+        direct(ctx, pp, torch, dict(c, layout=lay, grad=g), 'autograd:%s:%s' % (op, mode))
+        # ---- batched cameras
+        if it % 4 == 0:
+            bs = rng.choice([(2,), (3,), (2, 2)])
+            B = bs[0] * (bs[1] if len(bs) > 1 else 1)
+            Nb = rng.choice([1, B, 4])
+            c = dict(fn='cam-batch', bshape=list(bs), use_T=bool(it % 8 == 0 or 'T' in g['req'] or 'Tparam' in g['req']), grad=g,
+                     K=[[[rng.choice([100.0, 150.0, -120.0]), 0.0, rng.uniform(20, 80)], [0.0, rng.choice([100.0, 90.0, 250.0]), rng.uniform(20, 80)], [0.0, 0.0, 1.0]] for _ in range(B)],
+                     T=[[rng.uniform(-1, 1), rng.uniform(-1, 1), rng.uniform(-1, 1)] + unit_quat(rng) for _ in range(B)],
+                     P=[[[rng.uniform(-2, 2), rng.uniform(-2, 2), rng.uniform(4, 9)] for _ in range(Nb)] for _ in range(B)])
+            direct(ctx, pp, torch, c, 'autograd:cam-batch:%s' % mode)
+        # ---- one cloud function on a cloud that requires grad (or a plain cloud inside no_grad / inference_mode)
+        fn = cloud[it % len(cloud)]
+        o, pd, nf = rng.choice(os_), rng.randint(1, 4), rng.choice([0, 1, 2])
+        cl = gen_small(rng, rng.choice([1, 2, 3, 5, 8, 13, 24]), pd, nf)
+        gc = dict(req=['a'] if g['req'] else [], mode=g['mode'])
+        form = dict(grad=gc)
+        if it % 3 == 0:
+            form.update(dtype=rng.choice(['float32', 'float64']), layout=rng.choice(LAYOUTS))
+        direct(ctx, pp, torch, cloud_case(rng, fn, cl, pd, nf, o, form), 'autograd:%s:%s' % (fn, mode))
+
+
+# ------------------------------------------------------------------------------------ valid but falsy argument values
+def falsy_args(ctx, pp, torch, n):
+    """optional / numeric arguments at values that are valid but falsy in Python, given as int or as float, given explicitly at
+    their default or left out: radius 0 and 0.0 (exactly the coincident points are within it - clouds with exact duplicate rows
+    at random positions and clouds without), k / nbr / num 0, pdim omitted for clouds without feature channels, return_mask
+    omitted, random=False given, a non-zero radius given as int; exact oracle on the implementation"""
+    rng = ctx.rng
+    os_ = ['L1', 'L2', 'Linf']
+    for it in range(n):
+        o, pd, nf = os_[it % 3], rng.randint(1, 4), rng.choice([0, 0, 1])
+        N = rng.choice([1, 2, 3, 4, 6, 9, 14])
+        pts = gen_small(rng, N, pd, nf)
+        if it % 2 == 0 and N >= 2:
+            for _ in range(rng.randint(1, max(1, N // 2))):
+                a, b = rng.sample(range(N), 2)
+                pts[a] = list(pts[b])                 # an exact copy: within radius 0, no tie with the point itself
+        zero = [0, 0.0][(it // 2) % 2]
+        far = rng.choice([1000, 7])                   # a non-zero radius given as int
+        omit = lambda *names: [x for x in names if rng.random() < 0.5 and (x != 'pdim' or nf == 0)]
+        for k in (0, 1, 2):
+            for radius in (zero, far):
+                if k + 1 <= N:
+                    c = dict(fn='knn_filter', pts=pts, k=k, pd=pd, ord=o, radius=radius, omit=omit('pdim'))
+                    direct(ctx, pp, torch, c, 'falsy:knn_filter:radius=%r' % (radius if radius == 0 else 'int'), '(k=%d, radius=%r, ord=%s) on %d points' % (k, radius, o, N))
+                c = dict(fn='nbr_filter', pts=pts, nbr=k, radius=radius, pd=pd, ord=o, omit=omit('pdim', 'return_mask'))
+                direct(ctx, pp, torch, c, 'falsy:nbr_filter:radius=%r' % (radius if radius == 0 else 'int'), '(nbr=%d, radius=%r, ord=%s) on %d points' % (k, radius, o, N))
+        c = dict(fn='knn_filter', pts=pts, k=0, pd=pd, ord=o, radius=None, omit=omit('pdim', 'radius'))
+        direct(ctx, pp, torch, c, 'falsy:knn_filter:k=0')
+        direct(ctx, pp, torch, dict(fn='knn', ref=pts[:3], nbr=pts, k=0, ord=o), 'falsy:knn:k=0')
+        direct(ctx, pp, torch, dict(fn='random_filter', pts=pts, num=0, seed=it), 'falsy:random_filter:num=0')
+        direct(ctx, pp, torch, dict(fn='voxel_filter', pts=pts, voxel=[rng.choice([1.0, 2.0, 5.0, 64.0]) for _ in range(pd)], explicit=True), 'falsy:voxel_filter:random=False')
+
+
 def run(ctx):
     pp = import_pypose()
     import torch
@@ -1429,6 +1666,8 @@ def run(ctx):
     large_block(ctx, col, pp, torch)
     call_forms(ctx, pp, torch, ctx.scale(72, 500))
     camera_forms(ctx, pp, torch, ctx.scale(72, 500))
+    autograd_states(ctx, pp, torch, ctx.scale(46, 230))
+    falsy_args(ctx, pp, torch, ctx.scale(18, 90))
     files = col.files(ctx.scale(16, 48))
     res = run_case_files('C18', files, timeout=1500)
     bad = set()
